@@ -102,3 +102,173 @@ Proof.
   assert (E : vsstep o (v :: r) = Some (vstep o v :: r)) by (destruct o; try discriminate; reflexivity).
   rewrite E. rewrite IH by exact H2. reflexivity.
 Qed.
+
+(* ---- an unlimited clear only depends on the visible map *)
+Lemma spec_clear_view_indep bk kl d cur tch p m1 t1 l1 a1 m2 t2 l2 a2 : Comp bk kl d cur tch ->
+  spec_clear cur bk tch p None = (m1, t1, l1, a1) ->
+  spec_clear cur cur [] p None = (m2, t2, l2, a2) -> m1 = m2.
+Proof.
+  intros C E1 E2. pose proof (Comp_wf_cur _ _ _ _ _ C) as Wc. pose proof C as [W S Wt V TT].
+  destruct (spec_clear_all cur bk tch p Wc W Wt (Comp_I2 _ _ _ _ _ C) None m1 t1 l1 a1 (or_introl eq_refl) E1)
+    as (-> & _ & _).
+  now rewrite (spec_clear_direct_all cur p m2 t2 l2 a2 Wc E2).
+Qed.
+
+Lemma levels_direct o v : is_tx o = false -> levels (snd (sstep o (mk_sstate v []))) = [].
+Proof.
+  intro NT. destruct o; try discriminate; cbn;
+    repeat match goal with |- context [let '(_, _) := ?e in _] => destruct e as [[[? ?] ?] ?] end;
+    reflexivity.
+Qed.
+
+Lemma sstep_vstack s t o vs' : GSR s t -> limit_free_op o = true ->
+  vsstep o (vstack t) = Some vs' ->
+  vstack (snd (sstep o t)) = vs' /\ fst (sstep o t) <> RPanic.
+Proof.
+  intros [B M C L] LF H. destruct s as [b txs], t as [bk lvls]. cbn in B, M, C, L.
+  destruct L as [|D l txs' lvls' R L]; unfold vstack in *; cbn [levels backend map app] in *.
+  - (* depth 0 *)
+    destruct (is_tx o) eqn:TX.
+    + destruct o; try discriminate; cbn in H; try discriminate.
+      injection H as <-. cbn. split; [reflexivity | discriminate].
+    + assert (E : vsstep o [bk] = Some [vstep o bk]) by (destruct o; try discriminate; reflexivity).
+      rewrite E in H. injection H as <-. split.
+      * unfold vstep. rewrite (levels_direct o bk TX). reflexivity.
+      * destruct o; try discriminate; cbn;
+          repeat match goal with |- context [let '(_, _) := ?e in _] => destruct e as [[[? ?] ?] ?] end;
+          discriminate.
+  - (* inside a transaction *)
+    pose proof R as [Dw Cm Cn Wt Cc].
+    destruct (is_tx o) eqn:TX.
+    + destruct o; try discriminate; cbn in H.
+      * injection H as <-. cbn. split; [reflexivity | discriminate].
+      * destruct lvls' as [|l1 r1]; cbn in H; injection H as <-; cbn; (split; [reflexivity | discriminate]).
+      * destruct lvls' as [|l1 r1]; cbn in H; injection H as <-; cbn; (split; [reflexivity | discriminate]).
+    + assert (E : vsstep o (view l :: map view lvls' ++ [bk]) =
+                  Some (vstep o (view l) :: map view lvls' ++ [bk]))
+        by (destruct o; try discriminate; reflexivity).
+      rewrite E in H. injection H as <-.
+      destruct o; try discriminate; unfold vstep;
+        cbn [sstep cur_level levels set_level backend fst snd view t_main t_children map app
+             touch_main touch_child touched_child om_get];
+        try (split; [reflexivity | discriminate]).
+      * (* ClearPrefix *)
+        destruct (spec_clear (c_main (view l)) (c_main bk) (t_main l) p None) as [[[m1 t1] l1] a1] eqn:E1.
+        destruct (spec_clear (c_main (view l)) (c_main (view l)) [] p None) as [[[m2 t2] l2] a2] eqn:E2.
+        cbn. rewrite M in E1. rewrite (spec_clear_view_indep _ _ _ _ _ _ _ _ _ _ _ _ _ _ Cm E1 E2).
+        split; [reflexivity | discriminate].
+      * (* ClearPrefixInChild *)
+        change (cs_child (view l) c) with (gch (c_children (view l)) c).
+        change (cs_child bk c) with (gch (c_children bk) c). rewrite C.
+        destruct (spec_clear (gch (c_children (view l)) c) (gch (bk_children b) c) (touched_child l c) p None)
+          as [[[m1 t1] l1] a1] eqn:E1.
+        destruct (spec_clear (gch (c_children (view l)) c) (gch (c_children (view l)) c) [] p None)
+          as [[[m2 t2] l2] a2] eqn:E2.
+        cbn. rewrite (spec_clear_view_indep _ _ _ _ _ _ _ _ _ _ _ _ _ _ (Cc c) E1 E2).
+        split; [reflexivity | discriminate].
+      * (* DeleteChild *)
+        change (cs_child (view l) c) with (gch (c_children (view l)) c).
+        change (cs_child bk c) with (gch (c_children bk) c). rewrite C.
+        destruct (spec_clear (gch (c_children (view l)) c) (gch (bk_children b) c) (touched_child l c) [] None)
+          as [[[m1 t1] l1] a1] eqn:E1.
+        destruct (spec_clear (gch (c_children (view l)) c) (gch (c_children (view l)) c) [] [] None)
+          as [[[m2 t2] l2] a2] eqn:E2.
+        cbn. rewrite (spec_clear_view_indep _ _ _ _ _ _ _ _ _ _ _ _ _ _ (Cc c) E1 E2).
+        split; [reflexivity | discriminate].
+      * (* DeleteChildLimit without limit *)
+        destruct lim as [n|]; [discriminate|].
+        change (cs_child (view l) c) with (gch (c_children (view l)) c).
+        change (cs_child bk c) with (gch (c_children bk) c). rewrite C.
+        destruct (spec_clear (gch (c_children (view l)) c) (gch (bk_children b) c) (touched_child l c) [] None)
+          as [[[m1 t1] l1] a1] eqn:E1.
+        destruct (spec_clear (gch (c_children (view l)) c) (gch (c_children (view l)) c) [] [] None)
+          as [[[m2 t2] l2] a2] eqn:E2.
+        cbn. rewrite (spec_clear_view_indep _ _ _ _ _ _ _ _ _ _ _ _ _ _ (Cc c) E1 E2).
+        split; [reflexivity | discriminate].
+Qed.
+
+(* ---- whole histories *)
+Lemma limit_free_guard o s : limit_free_op o = true -> step_guard cfg_fixed o s = None.
+Proof.
+  intro LF. unfold step_guard. destruct o; try discriminate; try reflexivity;
+    destruct (ts_txs s); try reflexivity; destruct lim; try discriminate; reflexivity.
+Qed.
+
+Lemma run_vs ops : forall s t vs', GSR s t -> forallb limit_free_op ops = true ->
+  vsrun ops (vstack t) = Some vs' ->
+  vstack (snd (srun ops t)) = vs' /\ GSR (snd (run cfg_fixed ops s)) (snd (srun ops t)).
+Proof.
+  induction ops as [|o r IH]; intros s t vs' R LF H.
+  - cbn in *. injection H as <-. now split.
+  - cbn in LF. apply andb_prop in LF as [L1 L2]. cbn [vsrun] in H.
+    destruct (vsstep o (vstack t)) as [vs1|] eqn:E; [|discriminate].
+    destruct (sstep_vstack s t o vs1 R L1 E) as [V NP].
+    destruct (step_full o s t R (limit_free_guard o s L1)) as [EN R'].
+    cbn [run srun].
+    destruct (step cfg_fixed o s) as [x s'] eqn:ES. destruct (sstep o t) as [y t'] eqn:ET.
+    cbn [fst snd] in *.
+    assert (NX : x <> RPanic).
+    { intros ->. assert (P : norm_obs o RPanic = RPanic) by now apply norm_obs_panic.
+      rewrite P in EN. symmetry in EN. apply norm_obs_panic in EN. contradiction. }
+    subst vs1. destruct (IH s' t' vs' R' L2 H) as [V2 R2].
+    destruct (run cfg_fixed r s') as [xs s''], (srun r t') as [ys t''].
+    cbn [fst snd] in *.
+    destruct x; try contradiction; destruct y; try contradiction; cbn [fst snd]; now split.
+Qed.
+
+Lemma vstack_single t v : vstack t = [v] -> levels t = [] /\ backend t = v.
+Proof.
+  unfold vstack. destruct (levels t) as [|l r]; cbn.
+  - intros [= <-]. now split.
+  - intro H. injection H as _ H. destruct (map view r); discriminate.
+Qed.
+
+Lemma GSR_closed_eq s1 t1 s2 t2 : GSR s1 t1 -> GSR s2 t2 ->
+  levels t1 = [] -> levels t2 = [] -> backend t1 = backend t2 -> s1 = s2.
+Proof.
+  intros [B1 M1 C1 L1] [B2 M2 C2 L2] E1 E2 EB.
+  rewrite E1 in L1. rewrite E2 in L2. inversion L1 as [X1|]. inversion L2 as [X2|].
+  destruct s1 as [[m1 c1 st1] tx1], s2 as [[m2 c2 st2] tx2]. cbn in *. subst tx1 tx2.
+  destruct B1 as [_ _ S1], B2 as [_ _ S2]. cbn in *. subst st1 st2.
+  rewrite EB in M1, C1. congruence.
+Qed.
+
+(* Committing the outermost transaction gives the same committed state (contents, hence root)
+   as applying the committed operations directly. *)
+Theorem commit_direct s t ops f : GSR s t -> ts_txs s = [] ->
+  forallb limit_free_op ops = true -> flattened ops = Some f ->
+  snd (run cfg_fixed ops s) = snd (run cfg_fixed f s).
+Proof.
+  intros R Closed LF FL. unfold flattened in FL.
+  destruct (fsrun ops [[]]) as [[|f0 [|? ?]]|] eqn:FR; try discriminate. injection FL as ->.
+  assert (Lt : levels t = []).
+  { destruct R as [_ _ _ L]. rewrite Closed in L. now inversion L. }
+  assert (VT : vstack t = [backend t]) by (unfold vstack; now rewrite Lt).
+  pose proof (fsrun_vsrun (backend t) ops [[]] [f] FR) as V1. cbn [map fvs fold_left] in V1.
+  rewrite <- VT in V1.
+  destruct (run_vs ops s t _ R LF V1) as [E1 R1].
+  assert (TF : forallb (fun x => negb (is_tx x)) f = true).
+  { assert (F0 : Forall (fun f => forallb (fun x => negb (is_tx x)) f = true) [[]])
+      by (constructor; [reflexivity | constructor]).
+    pose proof (fsrun_txfree ops [[]] [f] F0 FR) as F. now inversion F. }
+  assert (LFf : forallb limit_free_op f = true).
+  { assert (F0 : Forall (fun f => forallb limit_free_op f = true) [[]])
+      by (constructor; [reflexivity | constructor]).
+    pose proof (fsrun_limit_free ops [[]] [f] LF F0 FR) as F. now inversion F. }
+  pose proof (vsrun_txfree f (backend t) [] TF) as V2. rewrite <- VT in V2.
+  destruct (run_vs f s t _ R LFf V2) as [E2 R2].
+  apply vstack_single in E1 as [L1 B1]. apply vstack_single in E2 as [L2 B2].
+  apply (GSR_closed_eq _ _ _ _ R1 R2 L1 L2). congruence.
+Qed.
+
+(* from any state reached by a guard-free history with all transactions closed *)
+Corollary commit_direct_reachable pre ops f : guard_free cfg_fixed pre = true ->
+  let s := snd (run cfg_fixed pre ts_init) in
+  ts_txs s = [] -> forallb limit_free_op ops = true -> flattened ops = Some f ->
+  snd (run cfg_fixed ops s) = snd (run cfg_fixed f s).
+Proof.
+  intros G s Closed LF FL. unfold guard_free in G.
+  destruct (run_guards cfg_fixed pre ts_init) eqn:GE; [|discriminate].
+  destruct (run_full pre ts_init ss_init GSR_init GE) as [_ R].
+  exact (commit_direct s _ ops f R Closed LF FL).
+Qed.
